@@ -186,6 +186,13 @@ func (cs *ContractSet) parseFile(pkgPath, file string) error {
 				return fmt.Errorf("%s:%d: ensures outside func", file, lineNo)
 			}
 			cur.Ens = append(cur.Ens, mk("ensures"))
+		case "refute":
+			// a postcondition that is only searched for counterexamples (the proof is
+			// beyond the solvers): sat = violation, unknown = bounded search exhausted
+			if cur == nil {
+				return fmt.Errorf("%s:%d: refute outside func", file, lineNo)
+			}
+			cur.Ens = append(cur.Ens, mk("refute"))
 		case "loop":
 			// loop <n> invariant <expr>
 			fs := strings.SplitN(rest, " ", 3)
